@@ -54,6 +54,9 @@ type World struct {
 	All    []*packages.Package
 	tmp    string
 	remap  [][2]string // staged dir prefix -> repo dir prefix
+	// Dropped: packages that do not type-check under this build configuration (only tolerated for
+	// the non-host configurations of the thorough tier): logical name -> first error
+	Dropped map[string]string
 }
 
 // Env returns the environment every go invocation of the checker uses.
@@ -137,7 +140,7 @@ func copyGoFiles(src, dst string) (int, error) {
 
 // Load loads the world from repo (working tree). goarch "" = host.
 func Load(repo, goarch string) (*World, error) {
-	w := &World{Repo: repo, GOARCH: goarch, Pkgs: map[string]*packages.Package{}, SSA: map[string]*ssa.Package{}}
+	w := &World{Repo: repo, GOARCH: goarch, Pkgs: map[string]*packages.Package{}, SSA: map[string]*ssa.Package{}, Dropped: map[string]string{}}
 	tmp, err := os.MkdirTemp("", "golemcheck-")
 	if err != nil {
 		return nil, err
@@ -241,8 +244,17 @@ func Load(repo, goarch string) (*World, error) {
 		return nil, fmt.Errorf("packages.Load: %w", err)
 	}
 	var errs []string
+	bad := map[string]bool{}
 	for _, p := range pkgs {
 		for _, e := range p.Errors {
+			if goarch != "" && Logical(p.PkgPath) != "" {
+				// a non-host configuration: drop the package (and its dependants) instead of failing the load
+				if !bad[p.PkgPath] {
+					w.Dropped[Logical(p.PkgPath)] = w.MapPath(e.Error())
+				}
+				bad[p.PkgPath] = true
+				continue
+			}
 			errs = append(errs, w.MapPath(e.Error()))
 		}
 		if len(p.IgnoredFiles) > 0 {
@@ -252,6 +264,31 @@ func Load(repo, goarch string) (*World, error) {
 	if len(errs) > 0 {
 		return nil, fmt.Errorf("load errors:\n  %s", strings.Join(errs, "\n  "))
 	}
+	// dependants of dropped packages are dropped too
+	for changed := true; changed; {
+		changed = false
+		for _, p := range pkgs {
+			if bad[p.PkgPath] {
+				continue
+			}
+			for _, ip := range p.Imports {
+				if bad[ip.PkgPath] {
+					bad[p.PkgPath] = true
+					if ln := Logical(p.PkgPath); ln != "" {
+						w.Dropped[ln] = "imports a package that does not type-check under this configuration"
+					}
+					changed = true
+				}
+			}
+		}
+	}
+	kept := pkgs[:0]
+	for _, p := range pkgs {
+		if !bad[p.PkgPath] {
+			kept = append(kept, p)
+		}
+	}
+	pkgs = kept
 	for _, p := range pkgs {
 		ln := Logical(p.PkgPath)
 		if ln == "" {
@@ -307,6 +344,9 @@ var Required = []string{
 
 func (w *World) CheckComplete() error {
 	for _, r := range Required {
+		if _, dropped := w.Dropped[r]; dropped {
+			continue
+		}
 		if w.Pkgs[r] == nil || w.SSA[r] == nil {
 			return fmt.Errorf("required package %s not loaded", r)
 		}
